@@ -67,7 +67,8 @@ inductive Entry
       (src : Option StateId) (tgt : StateId)
   /-- the value a nested `send` handed back to the callback -/
   | sendRet (tid : Nat) (ph : Phase) (cb : CbId) (r : Res)
-  | cbEnd   (tid : Nat) (ph : Phase) (cb : CbId)
+  /-- a callback returned `ret` -/
+  | cbEnd   (tid : Nat) (ph : Phase) (cb : CbId) (ret : Val)
   | setState (tid : Nat) (v : Val)
 deriving Repr, DecidableEq
 
